@@ -962,6 +962,8 @@ def option_map_or(ctx):
     v, _ = to_enum(ex, st, ctx.args[0])
     default, f = ctx.args[1], ctx.args[2]
     some = v.variants.get(1, {}).get(0)
+    if isinstance(v.discr, int) and v.discr == 0:
+        return default
     mapped = None
     tag = f.tag if isinstance(f, Opaque) else None
     if isinstance(tag, str):
@@ -1366,11 +1368,23 @@ def apply_callable(ctx, f, args, dest_ty=None):
     returns [(state, ret)] or None when the callee cannot be run"""
     from engine import CallCtx
     ex, st = ctx.ex, ctx.st
-    if isinstance(f, Agg):
-        body = ex.db.closure_fn(f.name)
+    fv = f
+    seen = 0
+    while isinstance(fv, Ref) and seen < 4:
+        fv = ex.load(st, fv.cell, fv.path)
+        seen += 1
+    if isinstance(fv, Agg) and fv.name.startswith('{closure@'):
+        body = ex.db.closure_fn(fv.name, getattr(fv, 'creator', None))
         if body is None:
             return None
-        return ex.call_sub_states(st, body, [f] + list(args))
+        # the body takes the closure the way its kind says (&self / &mut self / self)
+        want_ref = body.params and body.params[0][1].strip().startswith('&')
+        first = f
+        if want_ref and not isinstance(f, Ref):
+            first = Ref(st.alloc(f), ())
+        if not want_ref and isinstance(f, Ref):
+            first = fv
+        return ex.call_sub_states(st, body, [first] + list(args))
     if isinstance(f, Opaque) and isinstance(f.tag, str) and re.search(r'::[A-Za-z_0-9]+$', f.tag.strip()):
         callee = f.tag.strip()
         c2 = CallCtx(ex, st, ctx.fr, callee, list(args), dest_ty)
@@ -1690,3 +1704,86 @@ def closure_call(ctx):
     if not want_ref and isinstance(c, Ref):
         first = cv
     return Push(body, [first] + rest)
+
+
+@contract(r' as Iterator>::enumerate$')
+def iter_enumerate(ctx):
+    """iter.enumerate(): the lazy sequence of (index, element) pairs"""
+    a = _as_lazy_seq(ctx, ctx.args[0])
+    if a is None:
+        return NotImplemented
+    ite = ctx.ex.ite
+    return _lazy(SeqV(lambda i, a=a: Agg('tuple', {0: Int(i if not isinstance(i, int) else BV(i, 64), 64, False), 1: a.at(i, merge=ite)}), a.len, None, 'tuple', 'lazy'))
+
+
+@contract(r'^core::slice::<impl \[(?!u8\]).*\]>::get::<usize>$|^Vec::<(?!u8>).*>::get::<usize>$')
+def slice_get_usize(ctx):
+    """[T]::get(i): Some(&self[i]) iff i < len"""
+    ex, st = ctx.ex, ctx.st
+    v, loc = seq_loc(ex, st, ctx.args[0])
+    if not isinstance(v, SeqV) or loc is None:
+        return NotImplemented
+    i = ctx.args[1].t
+    inside = simp(z3.ULT(i, v.len))
+    t, f = ex.branch(st, inside)
+    outs = []
+    if t:
+        s2 = st.fork() if f else st
+        ex.assume(s2, inside)
+        outs.append((s2, mk_option(ex, Ref(loc[0], loc[1] + (('i', i),)))))
+    if f:
+        if t:
+            ex.assume(st, z3.Not(inside))
+        outs.append((st, mk_option(ex, None)))
+    return outs
+
+
+@contract(r"^<std::slice::Iter<.*> as Iterator>::map::<.*>$|^<std::vec::IntoIter<.*> as Iterator>::map::<.*>$")
+def iter_map_new(ctx):
+    """iter.map(f): the adaptor value (inner iterator, closure); elements are produced by Map::next"""
+    it = ctx.args[0]
+    if not (isinstance(it, Agg) and it.name in ('slice::Iter', 'vec::IntoIter')):
+        return NotImplemented
+    return Agg('iter::Map', {0: it, 1: ctx.args[1]})
+
+
+@contract(r'^<std::iter::Map<.*> as IntoIterator>::into_iter$')
+def iter_map_into_iter(ctx):
+    a = ctx.args[0]
+    if isinstance(a, Agg) and a.name == 'iter::Map':
+        return a
+    return NotImplemented
+
+
+@contract(r'^<std::iter::Map<.*> as Iterator>::next$')
+def iter_map_next(ctx):
+    """Map::next: the inner iterator's next element passed through the real closure body"""
+    from engine import CallCtx
+    ex, st = ctx.ex, ctx.st
+    mref = ctx.args[0]
+    m = ex.load(st, mref.cell, mref.path)
+    if not (isinstance(m, Agg) and m.name == 'iter::Map'):
+        return NotImplemented
+    inner = m.fields[0]
+    if not (isinstance(inner, Agg) and inner.name == 'slice::Iter'):
+        return NotImplemented
+    iref = Ref(mref.cell, mref.path + (('f', 0, 'I'),), True)
+    c2 = CallCtx(ex, st, ctx.fr, '<std::slice::Iter<T> as Iterator>::next', [iref], None)
+    from contracts import slice_iter_next
+    outs0 = slice_iter_next(c2)
+    if outs0 is NotImplemented:
+        return NotImplemented
+    outs = []
+    for s2, opt in outs0:
+        d = opt.discr if isinstance(opt.discr, int) else concrete(opt.discr)
+        if d == 0:
+            outs.append((s2, mk_option(ex, None)))
+            continue
+        x = opt.variants[1][0]
+        m2 = ex.load(s2, mref.cell, mref.path)
+        c3 = CallCtx(ex, s2, ctx.fr, ctx.callee, ctx.args, ctx.dest_ty)
+        rs = apply_callable(c3, Ref(mref.cell, mref.path + (('f', 1, 'F'),), True), [x])
+        if rs is None:
+            return NotImplemented
+        outs += [(s3, mk_option(ex, r)) for s3, r in rs]
+    return outs
